@@ -941,6 +941,11 @@ class GeneralSFTPFile(PrefixingLogMixin):
             def _bad(): raise createSFTPError(FX_BAD_MESSAGE, "new size is not a valid nonnegative integer")
             return defer.execute(_bad)
 
+        if size is not None:
+            # Truncating or extending the file changes its contents, so close() must commit it.
+            # As in writeChunk, this is recorded when the request is made.
+            self.has_changed = True
+
         d = defer.Deferred()
         def _set(ign):
             if noisy: self.log("_set(%r) in %r" % (ign, request), level=NOISY)
